@@ -1,21 +1,22 @@
 # run parameters and manifest texts of the C15 check (read by ../props.py)
-PROP = dict(
-    engine="stack", test="TestC15", level="exploration",
-    quick=dict(checks=260, shards=14, timeout=1500),
-    thorough=dict(checks=3000, shards=14, timeout=3400),
-    rule="scenario families of C04 (healthy: 0-3 extensions, internal extension, 2-4 invocations in generated return orders), C05 (a party "
-         "stalls in each phase until the timeout, first or second generation) and C06 (crash points x exit kinds x extensions, 1-2 faulty "
-         "generations, then recovery); the fixed part runs the C04/C05/C06 fixed products. Oracle on the stream of a recording EventsAPI "
-         "against ground truth in the same sequence-numbered trace: per initialisation init-start, then status lines (one per known "
-         "extension) and at most one init-runtime-done, then exactly one init-report, all tagged init for the first initialisation and "
-         "invoke for later ones; per dispatch exactly one invoke-start with its request id and at most one invoke-runtime-done after it; "
-         "status success only if the runtime's next (init) resp. its answer and following next (invoke) were issued before; an error status "
-         "carries the type of a fault that has happened in that generation (Runtime.Unknown only when none or after a reset request); every "
-         "status line of an initialisation that launched the extension states a state and subscriptions compatible with that extension's "
-         "own calls so far (exactly Ready when the initialisation completed). Non-trivial: a failed or repeated initialisation, or "
-         "extensions in >=2 different states.",
-    assumptions=["fake process supervisor (DESIGN 3.4)", "the fail-fast re-initialisation after a failed first init (no reset in between) is checked for the grammar only"],
-    level_text="random search over healthy, timeout and fault histories; the platform event stream is parsed against a grammar and correlated with what really happened.",
-    level_note="event emission by the Logs/Telemetry API implementations is not part of the emulator; the recorder stands in for them",
-    technique="property-based testing (rapid): generated histories, trace grammar + ground-truth correlation as oracle",
-)
+PROP = {'engine': 'stack',
+ 'test': 'TestC15',
+ 'level': 'exploration',
+ 'quick': {'checks': 260, 'shards': 14, 'timeout': 1500},
+ 'thorough': {'checks': 6000, 'shards': 14, 'timeout': 3400},
+ 'rule': 'scenario families of C04 (healthy: 0-3 extensions, internal extension, 2-4 invocations in generated return orders), C05 (a party stalls in '
+         'each phase until the timeout, first or second generation) and C06 (crash points x exit kinds x extensions, 1-2 faulty generations, then '
+         'recovery); the fixed part runs the C04/C05/C06 fixed products. Oracle on the stream of a recording EventsAPI against ground truth in the '
+         'same sequence-numbered trace: per initialisation init-start, then status lines (one per known extension) and at most one '
+         'init-runtime-done, then exactly one init-report, all tagged init for the first initialisation and invoke for later ones; per dispatch '
+         "exactly one invoke-start with its request id and at most one invoke-runtime-done after it; status success only if the runtime's next "
+         '(init) resp. its answer and following next (invoke) were issued before; an error status carries the type of a fault that has happened in '
+         'that generation (Runtime.Unknown only when none or after a reset request); every status line of an initialisation that launched the '
+         "extension states a state and subscriptions compatible with that extension's own calls so far (exactly Ready when the initialisation "
+         'completed). Non-trivial: a failed or repeated initialisation, or extensions in >=2 different states.',
+ 'assumptions': ['fake process supervisor (DESIGN 3.4)',
+                 'the fail-fast re-initialisation after a failed first init (no reset in between) is checked for the grammar only'],
+ 'level_text': 'random search over healthy, timeout and fault histories; the platform event stream is parsed against a grammar and correlated with '
+               'what really happened.',
+ 'level_note': 'event emission by the Logs/Telemetry API implementations is not part of the emulator; the recorder stands in for them',
+ 'technique': 'property-based testing (rapid): generated histories, trace grammar + ground-truth correlation as oracle'}
